@@ -147,6 +147,8 @@ const c10xmlYang = `module x { namespace "urn:x"; prefix x; revision 2020-01-01;
   leaf e { type enumeration { enum one; enum two; } } leaf u { type union { type int32; type string; } } leaf d { type decimal64 { fraction-digits 2; } }
   leaf rs { type leafref { path "/s"; } } leaf-list rsl { type leafref { path "/sl"; } } leaf-list rs1 { type leafref { path "/s"; } }
   leaf ri { type leafref { path "/i"; } } leaf-list ril { type leafref { path "/il"; } } leaf re { type leafref { path "/e"; } } leaf-list ru { type leafref { path "/u"; } }
+  leaf rrs { type leafref { path "/rs"; } } leaf-list rrsl { type leafref { path "/rs"; } } leaf rrrs { type leafref { path "/rrs"; } } leaf rru { type leafref { path "/ru"; } }
+  leaf rri { type leafref { path "/ri"; } } typedef tdr { type leafref { path "/rs"; } } leaf rtd { type tdr; }
 }`
 
 func c10xmlText(c *core.Ctx) {
@@ -159,6 +161,8 @@ func c10xmlText(c *core.Ctx) {
 		{"s", " n ", `" n "`}, {"s", "\tn\n", `"\tn\n"`}, {"sl", " n ", `[" n "]`}, {"i", " 5 ", `5`}, {"il", "\n7 ", `[7]`}, {"b", " true ", `true`}, {"e", " two\n", `"two"`},
 		{"u", " n ", `" n "`}, {"d", " 1.5 ", `1.5`}, {"rs", " n ", `" n "`}, {"rsl", " n ", `[" n "]`}, {"rs1", "  n", `["  n"]`}, {"ri", " 5 ", `5`}, {"ril", " 5\n", `[5]`},
 		{"re", " one ", `"one"`}, {"ru", " n ", `[" n "]`},
+		// a leafref to a leafref (to a leafref) has the type at the end of the chain
+		{"rrs", " n ", `" n "`}, {"rrsl", "  joe \t", `["  joe \t"]`}, {"rrrs", "\tn ", `"\tn "`}, {"rru", " n ", `" n "`}, {"rri", " 5 ", `5`}, {"rtd", " n ", `" n "`},
 	}
 	for _, tc := range cases {
 		doc := fmt.Sprintf(`<x xmlns="urn:x"><%s>%s</%s></x>`, tc.leaf, tc.text, tc.leaf)
